@@ -706,6 +706,11 @@ class SMCSamples(BaseSamples):
             n_samples = len(self.x)
         log_w = self.log_weights(beta)
         w = to_numpy(self.xp.exp(log_w - logsumexp(log_w)))
+        # Renormalise in double precision: for float32 populations with
+        # large log-weights the rounding of logsumexp leaves the sum far
+        # enough from one for `choice` to reject the probabilities
+        w = np.asarray(w, dtype=np.float64)
+        w = w / w.sum()
         idx = rng.choice(len(self.x), size=n_samples, replace=True, p=w)
         return self.__class__(
             x=self.x[idx],
